@@ -29,6 +29,9 @@ func (m *Machine) baTerm(a *ByteArr) string {
 }
 
 func (m *Machine) baSel(a *ByteArr, idx Int) Int {
+	if a.BigAbs != "" {
+		m.incon("bytes of a symbolic big.Int are only supported as argument of hex.EncodeToString")
+	}
 	if a.Org != nil && len(m.pendingAx) > 0 {
 		m.flushAxioms() // the bytes of a hash value are inspected individually: its axioms are needed
 	}
